@@ -594,6 +594,18 @@ def run_c14(tier, seed):
             prog = {1: [op('lock'), op('unlock')], 2: [o, op('get', k=KA, fx=0, ft=0, mk='miss')]}
             jobs_dfs.append((cfg, prog, 2, 40 if tier == 'quick' else 200, seed, tid))
             tid += 1000
+    # bulk removals that work in phases (cull: expired items first, then by policy until the volume fits): the lock is
+    # taken between the phases; the count reported with the Timeout must include what the earlier phase removed
+    K3, K4 = [1, 99], [1, 100]
+    INITS['bulk'] = [op('set', k=KA, v=F1, ttl=[0], tag=0), op('set', k=KB, v=F2, ttl=[0], tag=1), op('set', k=K3, v=F3, ttl=[], tag=1),
+                     op('set', k=K4, v=F1, ttl=[], tag=0)]
+    for o in (op('cull'), op('cull', retry=1), op('expire'), op('clear'), op('evict', tag=1)):
+        for kind in ('cache', 'fanout'):
+            cfg = base_cfg(rng, False, 'bulk', policy=rng.choice(['lrs', 'lru']))
+            cfg.update(kind=kind, busy_budget=1, cull=0, limit=4096, now=3)
+            prog = {1: [op('lock'), op('unlock')], 2: [op('tick', n=2), o, op('len')]}
+            jobs_dfs.append((cfg, prog, 2, 60 if tier == 'quick' else 300, seed, tid))
+            tid += 1000
     design_level(out, 'C14', tier)
     sch = tlc_schedules('lock', tier, seed)
     jobs_script = []
